@@ -154,6 +154,125 @@ def op_padding(op):
     return None, (kdh, kdw), (ih, iw)
 
 
+def analyse_call(call, v, counters):
+    """stripe geometry, weight boxes, rolling-buffer row tags and the OFM partition of one emitted command stream (record of vv.compile.StreamLog).
+    v(mech, msg) receives the findings; -> number of passes"""
+    from ethosu.vela.high_level_command_stream import NpuStripe
+    from ethosu.vela.operation import NpuBlockType, Op
+
+    for k in ("stripes", "passes", "multi_stripe_passes", "multi_slice_passes", "receptive_checks", "rolling_rows_checked", "rolling_buffers", "unmodelled_stripes", "weight_boxes"):
+        counters.setdefault(k, 0)
+    events, info = decode.decode_stream(call["words"])
+    opev = [e for e in events if e.kind in ("op", "dma")]
+    if len(opev) != len(call["ops"]):
+        return 0
+    by_pass = {}
+    row_tag = {}  # address of a row start -> (tensor equivalence id, row)
+    for ev, apiop in zip(opev, call["ops"]):
+        cmd = call["op_to_cmd"].get(apiop)
+        if ev.kind != "op" or not isinstance(cmd, NpuStripe):
+            continue
+        counters["stripes"] += 1
+        F = decode.Fields(ev.op)
+        ps = cmd.ps
+        op = ps.primary_op
+        by_pass.setdefault(id(ps), {"ps": ps, "op": op, "boxes": []})["boxes"].append((cmd.ofm_box, cmd))
+        if cmd.weight_box is not None:
+            counters["weight_boxes"] += 1
+            if (cmd.weight_box.start_coord[-1], cmd.weight_box.end_coord[-1]) != (cmd.ofm_box.start_coord[-1], cmd.ofm_box.end_coord[-1]):
+                v("weight-box-differs-from-ofm-channel-range", "weights %s for OFM channels %s" % (cmd.weight_box, cmd.ofm_box))
+        # ---- receptive field of this stripe (rows), from decoded registers
+        bt = ps.npu_block_type
+        modelled = bt in (NpuBlockType.ConvolutionMxN, NpuBlockType.ConvolutionDepthWise, NpuBlockType.Pooling) and F.upscale == 0 and op.type not in (
+            Op.Conv2DBackpropInputSwitchedBias,) and "padding" in op.attrs and len(set(F.ifm.bases)) > 1 or (bt in (NpuBlockType.ConvolutionMxN, NpuBlockType.ConvolutionDepthWise, NpuBlockType.Pooling) and F.upscale == 0 and "padding" in op.attrs and F.ifm.bases[1] == 0)
+        pad, (kdh, kdw), (ih, iw) = op_padding(op) if "padding" in op.attrs else (None, (1, 1), (0, 0))
+        if not modelled or pad is None or op.type == Op.Conv2DBackpropInputSwitchedBias:
+            counters["unmodelled_stripes"] += 1
+        else:
+            wo = op.write_offset.height if op.write_offset is not None else 0
+            wox = op.write_offset.width if op.write_offset is not None else 0
+            y0, y1 = cmd.ofm_box.start_coord[-3] - wo, cmd.ofm_box.end_coord[-3] - wo
+            x0, x1 = cmd.ofm_box.start_coord[-2] - wox, cmd.ofm_box.end_coord[-2] - wox
+            ro = op.read_offsets[0].height if op.read_offsets[0] is not None else 0
+            rox = op.read_offsets[0].width if op.read_offsets[0] is not None else 0
+            k = op.kernel
+            st, en, wpt, wpb = receptive(y0, y1, k.stride.y, kdh, pad[0], ih)
+            sx, ex, wpl, wpr = receptive(x0, x1, k.stride.x, kdw, pad[1], iw)
+            counters["receptive_checks"] += 1
+            got_rows = (int(cmd.ifm_box.start_coord[-3]) - ro, int(cmd.ifm_box.end_coord[-3]) - ro)
+            desc = "stripe rows [%d,%d) of %s (k %dx%d dil-size, stride %d/%d, pad %s, ifm %dx%d, read offset rows %d)" % (y0, y1, ps.name, kdh, kdw, k.stride.y, k.stride.x, pad, ih, iw, ro)
+            sfx = ":height-read-offset" if ro else ""
+            if en > st:
+                if got_rows[0] != st:
+                    v("stripe:ifm-start-row-differs-from-receptive-field" + sfx, "%s: IFM box starts at row %d, receptive field at %d" % (desc, got_rows[0], st))
+                if got_rows[1] < en:
+                    v("stripe:ifm-box-misses-rows" + sfx, "%s: IFM box ends at %d, receptive field needs rows up to %d" % (desc, got_rows[1], en))
+                if F.pad[0] != wpt or F.pad[2] != wpb:
+                    v("stripe:vertical-padding-differs-from-receptive-field" + sfx, "%s: registers pad top/bottom %d/%d, receptive field needs %d/%d" % (desc, F.pad[0], F.pad[2], wpt, wpb))
+                if F.ifm.height != en - st:
+                    v("stripe:implied-ifm-height" + sfx, "%s: registers imply %d IFM rows, receptive field has %d" % (desc, F.ifm.height, en - st))
+            if ex > sx:
+                if F.pad[1] != wpl or F.pad[3] != wpr:
+                    v("stripe:horizontal-padding-differs-from-receptive-field", "%s: registers pad left/right %d/%d, receptive field needs %d/%d" % (desc, F.pad[1], F.pad[3], wpl, wpr))
+            if F.ofm.height != y1 - y0 or F.ofm.width != x1 - x0:
+                v("stripe:ofm-size-register", "%s: OFM registers %dx%d" % (desc, F.ofm.height, F.ofm.width))
+        # ---- rolling buffers: row-granular writer tags over decoded addresses
+        for tens, box, fmv, is_write in ((cmd.ofm_tensor, cmd.ofm_box, F.ofm, True), (cmd.ifm_tensor, cmd.ifm_box, F.ifm, False)):
+            if tens is None or len(box.start_coord) < 3:
+                continue
+            full_h = tens.shape[-3] if len(tens.shape) >= 3 else 1
+            stor_h = tens.storage_shape[-3] if len(tens.storage_shape) >= 3 else 1
+            if stor_h >= full_h:
+                continue  # not a rolling buffer
+            r0, r1 = int(box.start_coord[-3]), int(box.end_coord[-3])
+            for row in range(r0, r1):
+                try:
+                    a = fmv.addr(row - r0, 0, 0)
+                except Exception:
+                    continue
+                if is_write:
+                    row_tag[(fmv.region, a)] = (tens.equivalence_id, row)
+                else:
+                    counters["rolling_rows_checked"] += 1
+                    tag = row_tag.get((fmv.region, a))
+                    if row - r0 >= F.ifm.height:
+                        continue  # beyond the rows the registers make the hardware consume (the IFM box may over-approximate)
+                    if tag is not None and tag != (tens.equivalence_id, row):
+                        over = ":consumer-ifm-box-exceeds-receptive-field" if (r1 - r0) > F.ifm.height else ""
+                        v("rolling-buffer-row-overwritten-before-read" + over, "%s reads row %d of %s at %#x but the buffer slot holds row %s (IFM box rows [%d,%d), rows consumed %d)" % (
+                            ps.name, row, tens.name, a, tag[1], r0, r1, F.ifm.height))
+            if is_write:
+                counters["rolling_buffers"] += 1
+    # ---- partition of each pass' write region
+    for pid_, g in by_pass.items():
+        ps, op = g["ps"], g["op"]
+        counters["passes"] += 1
+        if op.write_offset is not None:
+            lo = [int(x) for x in op.write_offset.as_list()]
+            hi = [a + b for a, b in zip(lo, [int(x) for x in op.write_shape.as_list()])]
+        else:
+            lo = [0, 0, 0, 0]
+            hi = [int(x) for x in ps.ofm_shapes[0].as_list()]
+        boxes = [(tuple(int(x) for x in b.start_coord), tuple(int(x) for x in b.end_coord)) for b, _ in g["boxes"]]
+        rows = {(b[0][-3], b[1][-3]) for b in boxes}
+        chans = {(b[0][-1], b[1][-1]) for b in boxes}
+        counters["multi_stripe_passes"] += int(len(rows) > 1)
+        counters["multi_slice_passes"] += int(len(chans) > 1)
+        vol = sum(int(np.prod([e - s for s, e in zip(b[0], b[1])])) for b in boxes)
+        want = int(np.prod([h - l for l, h in zip(lo, hi)]))
+        inside = all(all(l <= s and e <= h for s, e, l, h in zip(b[0], b[1], lo, hi)) for b in boxes)
+        overlap = False
+        for i in range(len(boxes)):
+            for j in range(i + 1, len(boxes)):
+                if all(max(a0, b0) < min(a1, b1) for a0, a1, b0, b1 in zip(boxes[i][0], boxes[i][1], boxes[j][0], boxes[j][1])):
+                    overlap = True
+        if overlap:
+            v("stripes-overlap", "OFM boxes of %s overlap: %s" % (ps.name, boxes[:6]))
+        elif not inside or vol != want:
+            v("stripes-do-not-cover-write-region", "OFM boxes of %s cover %d of %d elements of region %s..%s: %s" % (ps.name, vol, want, lo, hi, boxes[:6]))
+    return len(by_pass)
+
+
 def run_pipeline(case):
     from ethosu.vela.high_level_command_stream import NpuStripe
     from ethosu.vela.operation import NpuBlockType, Op
@@ -189,115 +308,8 @@ def run_pipeline(case):
             viol.setdefault(mech, {"mech": mech, "msg": "%s: %s" % (fam, msg), "witness": wit})
 
         for call in log.calls:
-            events, info = decode.decode_stream(call["words"])
-            opev = [e for e in events if e.kind in ("op", "dma")]
-            if len(opev) != len(call["ops"]):
-                continue
-            by_pass = {}
-            row_tag = {}  # address of a row start -> (tensor equivalence id, row)
-            for ev, apiop in zip(opev, call["ops"]):
-                cmd = call["op_to_cmd"].get(apiop)
-                if ev.kind != "op" or not isinstance(cmd, NpuStripe):
-                    continue
-                counters["stripes"] += 1
-                F = decode.Fields(ev.op)
-                ps = cmd.ps
-                op = ps.primary_op
-                by_pass.setdefault(id(ps), {"ps": ps, "op": op, "boxes": []})["boxes"].append((cmd.ofm_box, cmd))
-                if cmd.weight_box is not None:
-                    counters["weight_boxes"] += 1
-                    if (cmd.weight_box.start_coord[-1], cmd.weight_box.end_coord[-1]) != (cmd.ofm_box.start_coord[-1], cmd.ofm_box.end_coord[-1]):
-                        v("weight-box-differs-from-ofm-channel-range", "weights %s for OFM channels %s" % (cmd.weight_box, cmd.ofm_box))
-                # ---- receptive field of this stripe (rows), from decoded registers
-                bt = ps.npu_block_type
-                modelled = bt in (NpuBlockType.ConvolutionMxN, NpuBlockType.ConvolutionDepthWise, NpuBlockType.Pooling) and F.upscale == 0 and op.type not in (
-                    Op.Conv2DBackpropInputSwitchedBias,) and "padding" in op.attrs and len(set(F.ifm.bases)) > 1 or (bt in (NpuBlockType.ConvolutionMxN, NpuBlockType.ConvolutionDepthWise, NpuBlockType.Pooling) and F.upscale == 0 and "padding" in op.attrs and F.ifm.bases[1] == 0)
-                pad, (kdh, kdw), (ih, iw) = op_padding(op) if "padding" in op.attrs else (None, (1, 1), (0, 0))
-                if not modelled or pad is None or op.type == Op.Conv2DBackpropInputSwitchedBias:
-                    counters["unmodelled_stripes"] += 1
-                else:
-                    wo = op.write_offset.height if op.write_offset is not None else 0
-                    wox = op.write_offset.width if op.write_offset is not None else 0
-                    y0, y1 = cmd.ofm_box.start_coord[-3] - wo, cmd.ofm_box.end_coord[-3] - wo
-                    x0, x1 = cmd.ofm_box.start_coord[-2] - wox, cmd.ofm_box.end_coord[-2] - wox
-                    ro = op.read_offsets[0].height if op.read_offsets[0] is not None else 0
-                    rox = op.read_offsets[0].width if op.read_offsets[0] is not None else 0
-                    k = op.kernel
-                    st, en, wpt, wpb = receptive(y0, y1, k.stride.y, kdh, pad[0], ih)
-                    sx, ex, wpl, wpr = receptive(x0, x1, k.stride.x, kdw, pad[1], iw)
-                    counters["receptive_checks"] += 1
-                    got_rows = (int(cmd.ifm_box.start_coord[-3]) - ro, int(cmd.ifm_box.end_coord[-3]) - ro)
-                    desc = "stripe rows [%d,%d) of %s (k %dx%d dil-size, stride %d/%d, pad %s, ifm %dx%d, read offset rows %d)" % (y0, y1, ps.name, kdh, kdw, k.stride.y, k.stride.x, pad, ih, iw, ro)
-                    sfx = ":height-read-offset" if ro else ""
-                    if en > st:
-                        if got_rows[0] != st:
-                            v("stripe:ifm-start-row-differs-from-receptive-field" + sfx, "%s: IFM box starts at row %d, receptive field at %d" % (desc, got_rows[0], st))
-                        if got_rows[1] < en:
-                            v("stripe:ifm-box-misses-rows" + sfx, "%s: IFM box ends at %d, receptive field needs rows up to %d" % (desc, got_rows[1], en))
-                        if F.pad[0] != wpt or F.pad[2] != wpb:
-                            v("stripe:vertical-padding-differs-from-receptive-field" + sfx, "%s: registers pad top/bottom %d/%d, receptive field needs %d/%d" % (desc, F.pad[0], F.pad[2], wpt, wpb))
-                        if F.ifm.height != en - st:
-                            v("stripe:implied-ifm-height" + sfx, "%s: registers imply %d IFM rows, receptive field has %d" % (desc, F.ifm.height, en - st))
-                    if ex > sx:
-                        if F.pad[1] != wpl or F.pad[3] != wpr:
-                            v("stripe:horizontal-padding-differs-from-receptive-field", "%s: registers pad left/right %d/%d, receptive field needs %d/%d" % (desc, F.pad[1], F.pad[3], wpl, wpr))
-                    if F.ofm.height != y1 - y0 or F.ofm.width != x1 - x0:
-                        v("stripe:ofm-size-register", "%s: OFM registers %dx%d" % (desc, F.ofm.height, F.ofm.width))
-                # ---- rolling buffers: row-granular writer tags over decoded addresses
-                for tens, box, fmv, is_write in ((cmd.ofm_tensor, cmd.ofm_box, F.ofm, True), (cmd.ifm_tensor, cmd.ifm_box, F.ifm, False)):
-                    if tens is None or len(box.start_coord) < 3:
-                        continue
-                    full_h = tens.shape[-3] if len(tens.shape) >= 3 else 1
-                    stor_h = tens.storage_shape[-3] if len(tens.storage_shape) >= 3 else 1
-                    if stor_h >= full_h:
-                        continue  # not a rolling buffer
-                    r0, r1 = int(box.start_coord[-3]), int(box.end_coord[-3])
-                    for row in range(r0, r1):
-                        try:
-                            a = fmv.addr(row - r0, 0, 0)
-                        except Exception:
-                            continue
-                        if is_write:
-                            row_tag[(fmv.region, a)] = (tens.equivalence_id, row)
-                        else:
-                            counters["rolling_rows_checked"] += 1
-                            tag = row_tag.get((fmv.region, a))
-                            if row - r0 >= F.ifm.height:
-                                continue  # beyond the rows the registers make the hardware consume (the IFM box may over-approximate)
-                            if tag is not None and tag != (tens.equivalence_id, row):
-                                over = ":consumer-ifm-box-exceeds-receptive-field" if (r1 - r0) > F.ifm.height else ""
-                                v("rolling-buffer-row-overwritten-before-read" + over, "%s reads row %d of %s at %#x but the buffer slot holds row %s (IFM box rows [%d,%d), rows consumed %d)" % (
-                                    ps.name, row, tens.name, a, tag[1], r0, r1, F.ifm.height))
-                    if is_write:
-                        counters["rolling_buffers"] += 1
-            # ---- partition of each pass' write region
-            for pid_, g in by_pass.items():
-                ps, op = g["ps"], g["op"]
-                counters["passes"] += 1
-                if op.write_offset is not None:
-                    lo = [int(x) for x in op.write_offset.as_list()]
-                    hi = [a + b for a, b in zip(lo, [int(x) for x in op.write_shape.as_list()])]
-                else:
-                    lo = [0, 0, 0, 0]
-                    hi = [int(x) for x in ps.ofm_shapes[0].as_list()]
-                boxes = [(tuple(int(x) for x in b.start_coord), tuple(int(x) for x in b.end_coord)) for b, _ in g["boxes"]]
-                rows = {(b[0][-3], b[1][-3]) for b in boxes}
-                chans = {(b[0][-1], b[1][-1]) for b in boxes}
-                counters["multi_stripe_passes"] += int(len(rows) > 1)
-                counters["multi_slice_passes"] += int(len(chans) > 1)
-                vol = sum(int(np.prod([e - s for s, e in zip(b[0], b[1])])) for b in boxes)
-                want = int(np.prod([h - l for l, h in zip(lo, hi)]))
-                inside = all(all(l <= s and e <= h for s, e, l, h in zip(b[0], b[1], lo, hi)) for b in boxes)
-                overlap = False
-                for i in range(len(boxes)):
-                    for j in range(i + 1, len(boxes)):
-                        if all(max(a0, b0) < min(a1, b1) for a0, a1, b0, b1 in zip(boxes[i][0], boxes[i][1], boxes[j][0], boxes[j][1])):
-                            overlap = True
-                if overlap:
-                    v("stripes-overlap", "OFM boxes of %s overlap: %s" % (ps.name, boxes[:6]))
-                elif not inside or vol != want:
-                    v("stripes-do-not-cover-write-region", "OFM boxes of %s cover %d of %d elements of region %s..%s: %s" % (ps.name, vol, want, lo, hi, boxes[:6]))
-            keys.append("p:%s:%s:%d" % (fam, cfg["acc"], len(by_pass)))
+            npass = analyse_call(call, v, counters)
+            keys.append("p:%s:%s:%d" % (fam, cfg["acc"], npass))
         import shutil
 
         shutil.rmtree(d, ignore_errors=True)
@@ -311,7 +323,7 @@ def run_case(case):
 def summarise(agg, tier):
     q = tier == "quick"
     return {
-        "thresholds": {"direct_cases": 6000 if q else 120000, "multi_stripe_sets": 1200 if q else 25000, "stripes": 4000 if q else 100000, "multi_stripe_passes": 100 if q else 5000,
+        "thresholds": {"direct_cases": 6000 if q else 30000, "multi_stripe_sets": 1200 if q else 8000, "stripes": 4000 if q else 100000, "multi_stripe_passes": 100 if q else 5000,
                        "multi_slice_passes": 30 if q else 1500, "receptive_checks": 2000 if q else 50000, "rolling_rows_checked": 200 if q else 10000},
         "rule": "direct: OFM height 1..12 x every stripe height x kernel 1..8 x stride 1..3 x dilation 1..2 x SAME/VALID/explicit pads x write offsets {0,3} x read offsets {0,2} "
                 "(quick: reduced heights/steps); pipeline: every NpuStripe of compilations of striping-prone families under Size strategy / small caches. distinct = shards + "
